@@ -126,7 +126,7 @@ class Run:
     """
 
     def __init__(self, program, ids="test", draw=False, sched_uuid="", answers=None, imm=None,
-                 mutate=False, as_file=None, imm_other=None, imm_sf=None):
+                 mutate=False, as_file=None, imm_other=None, imm_sf=None, reuse_event=None):
         self.calls = []  # one record per external API call
         self.cur = None  # event list of the call in progress
         self.answers = []
@@ -137,6 +137,10 @@ class Run:
         # completion of another outstanding service reported from inside the k-th service-FINISHED notification
         self.imm_sf = imm_sf or (lambda k: False)
         self.n_sf = 0
+        # the application re-uses ONE Event object for all its reports: "replace" assigns a new data dict each time,
+        # "mutate" changes the dict in place
+        self.reuse_event = reuse_event
+        self._event = None
         self.mutate = mutate
         self.in_progress = []  # announcement indices whose completion is being delivered right now (a stack)
         self.announced = []  # service ids in announcement order
@@ -327,7 +331,16 @@ class Run:
     def complete(self, k, nested=False):
         """report the k-th announced service as finished"""
         uid = self.announced[k]
-        ev = Event("service_finished", {"service_uuid": uid})
+        if self.reuse_event and not nested:
+            if self._event is None:
+                self._event = Event("service_finished", {"service_uuid": uid})
+            elif self.reuse_event == "mutate":
+                self._event.data["service_uuid"] = uid
+            else:
+                self._event.data = {"service_uuid": uid}
+            ev = self._event
+        else:
+            ev = Event("service_finished", {"service_uuid": uid})
         self.in_progress.append(k)
         try:
             if nested:
